@@ -161,7 +161,7 @@ def run(ctx):
 		ctx.submit(case, lines, nontrivial=nt, tags=[tag, f'strict={case.get("strict")}'], pyfails=pf)
 
 	sub({'seed': 1, 'bare_cr': True, 'awkward': False}, 'witness-C11-F1')
-	for j in range(ctx.q(60, 1200)):
+	for j in range(ctx.q(140, 1200)):
 		if not ctx.time_left(0.9):
 			break
 		sub({'seed': rng.randrange(10 ** 9), 'strict': rng.random() < 0.4, 'awkward': rng.random() < 0.85}, 'results')
